@@ -591,6 +591,40 @@ def arith_side_condition(fx, f, what):
     return False
 
 
+def dedupe_rule(fx, scope, const_suffix="bytecode::Constant", builder="compiler::builder::BytecodeBuilder"):
+    """Constant kinds that have a de-duplication map are appended to the pool only by the function that consults that map.
+    (deduped kinds, [(fn, variant, span, ok)])"""
+    import exits as E
+    per = {}     # fn -> set of Constant variants it constructs
+    consults = set()
+    for p, f in fx.fns.items():
+        if f.derived or not scope(f):
+            continue
+        top = f.parent if f.closure else f.path
+        for bl in f.blocks:
+            for s_ in bl["s"]:
+                if s_[0] == "a" and s_[2][0] == "agg" and isinstance(s_[2][1], dict) and str(s_[2][1].get("p", "")).endswith(const_suffix) and s_[2][1].get("v"):
+                    per.setdefault(top, []).append((s_[2][1]["v"], s_[3], f))
+        for bi, t in f.calls():
+            d = t[1].get("d") or ""
+            if d.split("::")[-1] in ("get", "entry", "contains_key") and "HashMap" in d and t[2] and t[2][0][0] in ("c", "m"):
+                fl = E.field_of_ref(f, t[2][0][1][0])
+                if fl and fl[0] == builder:
+                    consults.add(top)
+    deduped = set()
+    for top in consults:
+        for v, sp, f in per.get(top, []):
+            deduped.add(v)
+    rows = []
+    for top, items in sorted(per.items()):
+        for v, sp, f in items:
+            if v in deduped:
+                rows.append((f, v, sp, top in consults))
+            else:
+                rows.append((f, v, sp, True))
+    return deduped, rows
+
+
 def run(tier):
     ck = Check("C10", tier, "cast/overflow-assert inventory over MIR of src/compiler + dominating range-guard recognition (CFG dominators, value roots)",
                ["the non-cumulative clause: registers reserved for call arguments are never released (needs counting allocator operations along all paths)",
@@ -653,6 +687,17 @@ def run(tier):
             ck.finding("R3.sentinel", "R3.sentinel/add_constant", F.short_span(ac.span),
                        "add_constant can hand out constant index 65535, which %s compare(s) against as the 'no name' sentinel (u16::MAX): a construct whose name lands on that index silently changes meaning"
                        % ", ".join(sorted({u for u, _ in sentinel_users})))
+    # ---------------- R5 the constant pool grows per distinct constant, not per occurrence
+    ck.rule("R5.pool-dedupe", "a Constant of a kind that has a de-duplication map (strings, numbers) is built only in the function that consults that map "
+                              "(65 536 occurrences of one literal must not exhaust the u16 pool)", floor=6)
+    ded5, rows5 = dedupe_rule(fx, lambda g: g.file.startswith("src/compiler"))
+    ck.anchor({"String", "Number"} <= ded5, "constant kinds with a de-duplication map in BytecodeBuilder (found %s)" % sorted(ded5))
+    for f5, v5, sp5, ok5 in rows5:
+        ck.instance("R5.pool-dedupe", "%s builds Constant::%s" % (f5.path, v5), F.short_span(sp5), ok=ok5, nontrivial=v5 in ded5)
+        if not ok5:
+            ck.finding("R5.pool-dedupe", "R5.pool-dedupe/%s/%s" % (f5.parent if f5.closure else f5.path, v5), F.short_span(sp5),
+                       "`%s` appends a Constant::%s to the pool without consulting the de-duplication map for that kind: every occurrence of the literal takes a slot of its own, "
+                       "so a chunk with 65 536 occurrences of one number is refused with \"Too many constants\" although each statement is fine alone" % (f5.path, v5))
     ck.note("u16 sentinel comparisons found in: %s" % sorted({u for u, _ in sentinel_users}))
     ck.assume("a bytecode chunk has fewer than 2^32 instructions (usize -> u32 jump offsets)")
     # positive control: guard recognizer on the fixture
